@@ -28,14 +28,14 @@ MANIFEST = {
 
 
 @st.composite
-def value_cases(draw):
-    env = draw(gen.envs(min_scalars=1, max_scalars=2, min_vectors=1, max_vectors=2, max_matrices=1, max_vec=6,
-                        max_mat=3))
+def value_cases(draw, big=False):
+    env = draw(gen.envs(min_scalars=1, max_scalars=2, min_vectors=1, max_vectors=2, max_matrices=1, max_vec=10 if big else 6,
+                        max_mat=4 if big else 3))
     env["views"] = {}
     g = gen.G(draw, env, gen.Cfg(params=bool(env["params"])))
     kinds = ["V", "V", "S"] + (["M", "M"] if env["matrices"] else [])
     top = draw(st.sampled_from(kinds))
-    depth = draw(st.integers(1, 3))
+    depth = draw(st.integers(1, 4 if big else 3))
     if top == "V":
         recipe = g.V(depth, classes=("var", "expr", "pow", "un"))
     elif top == "M":
@@ -66,7 +66,8 @@ def mismatch_cases(draw):
 
 
 def strategy(tier):
-    return st.one_of(value_cases(), value_cases(), value_cases(), mismatch_cases())
+    big = tier == "thorough"
+    return st.one_of(value_cases(big), value_cases(big), value_cases(big), mismatch_cases())
 
 
 def sample_repr(case):
